@@ -22,7 +22,7 @@ for d in sorted(Path('seeded').iterdir()):
     what = m['summary'].split('. ')[0][:150].replace('|', '/')
     rows.append((d.name, m['property'], ', '.join(m['files']), what,
                  first, ', '.join(sorted(set(rules))) or '— (missed)'))
-out = ['| seed | written for | file | change (first sentence of the author\'s summary) | caught at first pass (rounds 2, 3) | reported by |',
+out = ['| seed | written for | file | change (first sentence of the author\'s summary) | caught at first pass (rounds 2-5) | reported by |',
        '|---|---|---|---|---|---|']
 for r in rows:
     out.append('| ' + ' | '.join(r) + ' |')
